@@ -83,6 +83,7 @@ def install_mmap(ex: Explorer) -> None:
         cur = I.ghost["cur"]  # ghost line index with pos == OFF(cur)
         I.prove("M-reads-start-at-a-record-boundary", I.ghost["pos"] == OFF(cur))
         if I.branch(cur >= N):
+            I.ghost["last_line"] = None
             return VBytes(b"")
         I.note_index(cur)
         line = I.fresh_bytes("line", minlen=1)
@@ -180,7 +181,7 @@ def lookup_harness(I: Interp) -> None:
     I.prove("P2-len-is-the-number-of-records", ln.t == N)
 
 
-def records_harness(reverse: bool):
+def records_harness(reverse: bool, empty: bool = False):
     def harness(I: Interp) -> None:
         lg = L()
         install_mmap(I.ex)
@@ -191,6 +192,11 @@ def records_harness(reverse: bool):
         threshold = I.fresh_int("priority", 0, 8, inp=True)
 
         def cur_prio(I2: Interp, self_: V) -> V:
+            # precondition: the current line is a record (parsing b"" raises JSONDecodeError)
+            if I2.ghost.get("last_line") is None:
+                I2.fail("P4-current-record-is-consulted-only-after-a-line-was-read",
+                        "readline() returned b'' (empty log / end of file)")
+                raise PyExc(VObj(ValueError, {"args": VTuple([])}))
             return VInt(PRIO(I2.ghost["last_line"]))
         I.ex.contracts[lg.PenlogReader.__dict__["current_priority"].fget] = cur_prio
 
@@ -210,7 +216,10 @@ def records_harness(reverse: bool):
             return NONE
         I.ex.contracts[lg.PenlogReader.seek_to_record] = seek_to_record
         offset = I.fresh_int("offset", inp=True)
-        if reverse:
+        if reverse and empty:
+            I.assume(z3.And(N == 0, offset.t == 0))
+            I.ex.loop_contracts.pop(("PenlogReader.records", 1), None)
+        elif reverse:
             I.assume(z3.And(offset.t >= -N, offset.t < N, N >= 1))
         else:
             I.assume(z3.Or(z3.And(offset.t >= -N, offset.t < N), offset.t == 0))
@@ -252,12 +261,18 @@ def records_harness(reverse: bool):
             out.append(("moves-by-exactly-one-record",
                         I2.ghost["cur"] == (s - 1 if reverse else s + 1)))
             return out
-        I.ex.loop_contracts[("PenlogReader.records", 1 if reverse else 0)] = \
-            loops.LoopContract(havoc, inv)
+        if not empty:
+            I.ex.loop_contracts[("PenlogReader.records", 1 if reverse else 0)] = \
+                loops.LoopContract(havoc, inv)
+        I.ghost.update({"pos": z3.IntVal(0), "cur": z3.IntVal(0), "last_line": None})
         try:
             I.call_v(I.getattr_v(rd, "records"), [threshold, offset, VBool(reverse)], {})
         except PyExc as e:
             I.fail("P3-records-does-not-raise-for-a-valid-offset", e.exc.cls.__name__)
+            return
+        if empty:
+            I.prove("P4-reverse-walk-over-an-empty-log-yields-nothing",
+                    z3.BoolVal(not I.ghost.get("yielded")))
             return
         s = I.ghost.get("iter_start")
         if s is None:
@@ -286,9 +301,21 @@ def hr_harness(mode: str):
         calls: list[tuple] = []
         I.assume(N >= 0)
 
+        printed: list[int] = []
+
         def records(I2: Interp, recv: V, a: list[V], k: dict[str, V]) -> V:
             calls.append((a, k))
-            return VList([])
+            # one marker record per walk: what hr prints tells which walk it iterated
+            return VList([VObj(Stub, {"walk": VInt(len(calls) - 1)}, tag="hr-record")])
+
+        def print_(I2: Interp, a: list[V], k: dict[str, V]) -> V:
+            if a and isinstance(a[0], VObj) and a[0].tag == "hr-record":
+                printed.append(a[0].fields["walk"].concrete())
+            return NONE
+        orig_print = models.MODELS[print]
+        models.MODELS[print] = print_
+        models.MODELS[iter] = lambda I2, a, k: a[0] if isinstance(a[0], VList) else VList(
+            I2.iterate(a[0]))
         I.ex.stubs[("reader", "records")] = records
         I.ex.stubs[("reader", "__len__")] = lambda I2, r, a, k: VInt(N)
         reader = VObj(Stub, {}, lazy=True, tag="reader")
@@ -319,8 +346,16 @@ def hr_harness(mode: str):
             return
         finally:
             models.MODELS[len] = orig_len
+            models.MODELS[print] = orig_print
             models.WITH_MODELS.remove(reader_cm)
-        last_a, last_k = calls[-1]
+        if not printed:
+            # nothing was iterated: right exactly when the requested slice is empty
+            I.prove("P5-no-walk-only-when-the-requested-slice-is-empty", z3.BoolVal(
+                mode in ("tail", "head")) if mode not in ("tail", "head") else z3.Or(
+                    n_req.t == 0, N == 0))
+            return
+        I.prove("P5-exactly-one-walk-is-printed", z3.BoolVal(len(set(printed)) == 1))
+        last_a, last_k = calls[printed[0]]
 
         def arg(name: str, pos: int, default: V) -> V:
             if name in last_k:
@@ -333,8 +368,11 @@ def hr_harness(mode: str):
             I.prove("P5-reverse-starts-at-the-last-record",
                     z3.And(rev, z3.If(N > 0, off == -1, off == 0)))
         elif mode == "tail":
+            # the slice the statement names: records[max(len - n, 0):], going forward; an offset
+            # k < 0 starts at record len + k, k >= 0 at record k (P2)
+            start = z3.If(off < 0, N + off, off)
             I.prove("P5-tail-n-starts-at-max(len-n,0)-going-forward", z3.And(
-                z3.Not(rev), off == -z3.If(n_req.t < N, n_req.t, N)))
+                z3.Not(rev), off >= -N, start == z3.If(N - n_req.t > 0, N - n_req.t, 0)))
         elif mode == "head":
             I.prove("P5-head-n-takes-the-first-n-of-the-forward-walk", z3.And(
                 z3.Not(rev), off == 0, z3.BoolVal(sliced.get("n") is n_req)))
@@ -430,6 +468,41 @@ def writer_harness(I: Interp) -> None:
             models.CLASS_MODELS.pop(lg._PenlogRecordV2, None)
 
 
+def open_harness(I: Interp) -> None:
+    """`PenlogReader(path)` for a log of any size, 0 bytes included (a run that logged nothing):
+    mmap.mmap(fd, 0) raises ValueError exactly for an empty file."""
+    import io
+    import mmap as _mmap
+    lg = L()
+    size = I.fresh_int("file_size", 0, None, inp=True)
+    raw = VObj(Stub, {}, lazy=True, tag="rawfile")
+    I.ex.stubs[("rawfile", "fileno")] = lambda I2, r, a, k: VInt(7)
+    I.ex.contracts[lg.PenlogReader._prepare_for_mmap] = lambda I2, self_, p: raw
+
+    def mm(I2: Interp, cls: type, a: list[V], k: dict[str, V]) -> V:
+        if I2.branch(size.t == 0):
+            I2.raise_py(ValueError, "cannot mmap an empty file")
+        return VObj(Stub, {}, lazy=True, tag="mmap")
+    models.CLASS_MODELS[_mmap.mmap] = mm
+    models.CLASS_MODELS[io.BytesIO] = lambda I2, cls, a, k: VObj(Stub, {}, lazy=True,
+                                                                 tag="mmap")
+    rd = VObj(lg.PenlogReader, {})
+    try:
+        import pathlib
+        I.call_py(lg.PenlogReader.__init__, [rd, VConst(pathlib.Path("log.json.zst"))], {},
+                  owner=lg.PenlogReader)
+    except PyExc as e:
+        I.fail("O-a-log-of-any-size-can-be-opened(0-bytes-included)",
+               f"{e.exc.cls.__name__} for a file of 0 bytes")
+        return
+    finally:
+        models.CLASS_MODELS.pop(_mmap.mmap, None)
+        models.CLASS_MODELS.pop(io.BytesIO, None)
+    I.prove("O-reader-starts-unparsed-at-record-0", z3.And(
+        z3.Not(I.truth(rd.fields["_parsed"])),
+        models.as_int(I, rd.fields["_current_record_index"]) == 0))
+
+
 def wrap_enum(m: Any) -> V:
     return VConst(m) if not isinstance(m, int) else VInt(int(m), type(m))
 
@@ -439,6 +512,8 @@ def build_units(tier: str) -> list[Unit]:
             Unit("reader/_lookup_offset", lookup_harness),
             Unit("reader/records-forward", records_harness(False)),
             Unit("reader/records-reverse", records_harness(True)),
+            Unit("reader/records-reverse-empty-log", records_harness(True, True)),
+            Unit("reader/open", open_harness),
             Unit("hr/default", hr_harness("default")), Unit("hr/reverse", hr_harness("reverse")),
             Unit("hr/head", hr_harness("head")), Unit("hr/tail", hr_harness("tail")),
             Unit("priority/mapping-and-prefix", priority_harness),
@@ -481,6 +556,77 @@ def native_writer() -> tuple[bool, str]:
     return bad is not None, bad or "filtering on the line prefix equals filtering on the field"
 
 
+def native_empty_log() -> tuple[bool, str]:
+    """A log without records (plain and .zst): it opens, has length 0 and every walk is empty."""
+    import shutil
+    import tempfile
+    from pathlib import Path
+    import zstandard
+    lg = L()
+    tmp = Path(tempfile.mkdtemp(prefix="c17e_"))
+    (tmp / "e.json").write_bytes(b"")
+    (tmp / "e.json.zst").write_bytes(zstandard.ZstdCompressor().compress(b""))
+    bad = None
+    for name in ("e.json", "e.json.zst"):
+        try:
+            with lg.PenlogReader(tmp / name) as r:
+                got = (len(r), list(r.records()), list(r.records(reverse=True)))
+            if got != (0, [], []):
+                bad = f"{name}: (len, forward, reverse) == {got}"
+        except Exception as e:  # noqa: BLE001
+            bad = f"{name}: {type(e).__name__}: {e}"
+        if bad:
+            break
+    shutil.rmtree(tmp, ignore_errors=True)
+    return bad is not None, bad or "an empty log opens and reads as zero records"
+
+
+def native_hr() -> tuple[bool, str]:
+    """hr on a 3-record log: head/tail/reverse/default slices for n = 0..5."""
+    import contextlib
+    import io
+    import json
+    import shutil
+    import sys
+    import tempfile
+    from pathlib import Path
+    from gallia.cli import hr
+    tmp = Path(tempfile.mkdtemp(prefix="c17h_"))
+    lines = [json.dumps({"version": 2, "module": "m", "host": "h", "data": f"r{i}",
+                         "datetime": "2024-01-01T00:00:00+00:00", "priority": 6})
+             for i in range(3)]
+    (tmp / "x.json").write_text("\n".join(lines) + "\n")
+    bad = None
+    argv0 = sys.argv
+    try:
+        for mode in ("--tail", "--head", "--reverse", ""):
+            for n in range(0, 6):
+                sys.argv = ["hr"] + ([mode] if mode else []) + ["-n", str(n), str(tmp / "x.json")]
+                buf = io.StringIO()
+                try:
+                    with contextlib.redirect_stdout(buf):
+                        hr._main()
+                except BaseException as e:  # noqa: BLE001
+                    bad = f"hr {mode} -n {n}: {type(e).__name__}: {e}"
+                    break
+                got = [w for w in ("r0", "r1", "r2") for ln in buf.getvalue().splitlines()
+                       if ln.rstrip().endswith(w)]
+                order = [ln.rstrip()[-2:] for ln in buf.getvalue().splitlines()]
+                want = {"--tail": ["r0", "r1", "r2"][max(3 - n, 0):],
+                        "--head": ["r0", "r1", "r2"][:n],
+                        "--reverse": ["r2", "r1", "r0"], "": ["r0", "r1", "r2"]}[mode]
+                if order != want:
+                    bad = f"hr {mode} -n {n} on a 3-record log prints {order}, expected {want}"
+                    break
+                del got
+            if bad:
+                break
+    finally:
+        sys.argv = argv0
+        shutil.rmtree(tmp, ignore_errors=True)
+    return bad is not None, bad or "head/tail/reverse/default slices are right for n = 0..5"
+
+
 def native_replay(unit: str, obligation: str, model: dict) -> tuple[bool, str]:
     import json
     import tempfile
@@ -488,6 +634,10 @@ def native_replay(unit: str, obligation: str, model: dict) -> tuple[bool, str]:
     lg = L()
     if unit.startswith("writer/"):
         return native_writer()
+    if unit in ("reader/open", "reader/records-reverse-empty-log"):
+        return native_empty_log()
+    if unit.startswith("hr/"):
+        return native_hr()
     lines = [json.dumps({"version": 2, "module": "m", "host": "h", "data": f"r{i}",
                          "datetime": "2024-01-01T00:00:00+00:00", "priority": 6})
              for i in range(4)]
